@@ -77,7 +77,7 @@ def run_case(case):
         levels = list(idx)
     form = "python"
     if sel not in ("scalar",) and rng.random() < 0.5:
-        levels = np.array(idx, dtype=rng.choice([np.int64, np.int32, np.intp]))
+        levels = np.array(idx, dtype=rng.choice([np.int64, np.int32, np.intp, np.uint8, np.uint32, np.uint64]))  # any integer dtype an index array may have
         form = "ndarray"
     elif sel == "scalar" and rng.random() < 0.5:
         levels = np.int64(idx[0])
